@@ -185,6 +185,42 @@ wait:
 	return st
 }
 
+// Race feeds complete frames to both relays at once and lets the two reading sides run concurrently, each in
+// its own goroutine as in relayFrames (ReadFrame, processFrame, until its input is used up), with the writer
+// loops running freely.  It returns what was written towards each endpoint and the first error of each side.
+func (g *VerifRig) Race(fromClient, fromServer []byte) (toClient, toServer []byte, errClient, errServer error) {
+	g.fromClient.Write(fromClient)
+	g.fromServer.Write(fromServer)
+	g.stepDone.Store(true)
+	pump := func(r *relay, errp *error, done chan struct{}) {
+		defer close(done)
+		for {
+			f, err := r.src.ReadFrame()
+			if err != nil {
+				if err != io.EOF {
+					*errp = err
+				}
+				return
+			}
+			if err := r.processFrame(f); err != nil {
+				*errp = err
+				return
+			}
+		}
+	}
+	dc, ds := make(chan struct{}), make(chan struct{})
+	go pump(g.cToS, &errClient, dc)
+	go pump(g.sToC, &errServer, ds)
+	<-dc
+	<-ds
+	for _, rr := range []*relay{g.cToS, g.sToC} {
+		s := verifSync{make(chan struct{})}
+		rr.output <- s
+		<-s.done
+	}
+	return g.toClient.take(), g.toServer.take(), errClient, errServer
+}
+
 // VerifQueued describes one queued frame.
 type VerifQueued struct {
 	Kind      string // data, headers, push_promise, priority, rst_stream
